@@ -14,13 +14,14 @@ RULE = ("tie X on complete traces (concrete models for minimize / around / balan
 
 STRATS = ["minimize", "minimize-around", "minimize-balanced", "minimize-collapse-brace",
           "replace-properties-by-globals", "replace-arguments-by-globals"]
-CONCRETE = {"minimize", "minimize-around", "minimize-balanced", "minimize-collapse-brace"}
+CONCRETE = {"minimize", "minimize-around", "minimize-balanced", "minimize-collapse-brace",
+            "replace-properties-by-globals"}
 
 
 def files(quick, r):
     begins = [b"DDBEGIN\n", b"// x DDBEGIN y\r\n", b"head\nDDBEGIN\r"]
     ends = [b"DDEND\n", b"/* DDEND */ tail", b"\x85DDEND\n", b"DDEND\r\nmore\n"]
-    bodies = [b"{\n\n}\n", b"a\nb\n", b"x{\n}y\n{ \n}\n", b"function f(a) {\n}\nf(1);\n", b"a.b.c = 1;\nd.b.c = 2;\n",
+    bodies = [b"a\xff{\n\n}\n{\xc2\x85}\n", b"{\n\n}\n", b"a\nb\n", b"x{\n}y\n{ \n}\n", b"function f(a) {\n}\nf(1);\n", b"a.b.c = 1;\nd.b.c = 2;\n",
               b"'ab\\x41'\n\"c\"\n", b"<a b=\"c\" d>\n", b"a\r\nb\r\n", b"a\xc2\x85b\xc2\x85", b"{\n\r\n}\r\n",
               b"{\nX\n}a\xc2}\n", b"\n{\n}\n", b"a\rb\r"]
     out = []
@@ -69,6 +70,17 @@ def run(ck: Check):
         for end in (b"\x85DDEND\n", b"DDEND\n"):
             ex.one("minimize-collapse-brace", {}, None, b"DDBEGIN\n{\nX\n}a\xc2}\n" + end, want, atom=atom,
                    load=True, stream="corpus")
+    # corpus: every splitter that keeps unreducible text of the REGION in before/after (jsstr: text before the first /
+    # after the last string; char: the DDEND line break) together with a re-split in the middle of the run
+    # (collapse-brace) - the text outside the markers must survive the re-split
+    for body in (b"x = 'ab' + {\n\n} + \"cd\";\n", b"{\n}\nf('a{\n}b', {\n \n}, \"c\");\n{\n}\n",
+                 b"'a'\n{\n}\n", b"{\n}\n'a' {\n\n} 'b'"):
+        for bg, en in ((b"// head\nDDBEGIN\n", b"DDEND\ntail\n"), (b"DDBEGIN\r\n", b"/* DDEND */ t"), (b"h 'q' DDBEGIN\n", b"\nDDEND 'z'\n")):
+            for atom in atoms:
+                for v in ("Y" * 60, "Y" + "NY" * 40, "YN" + "Y" * 60):
+                    ex.one("minimize-collapse-brace", {}, None, bg + body + en, v, atom=atom, load=True, stream="corpus2")
+                ex.dfs("minimize-collapse-brace", {}, None, file0=bg + body + en, atom=atom, load=True,
+                       stream="corpus2-dfs", max_runs=6 if quick else 60, cap=150)
     ex.diff()
     return ck.finish(level="proof", rule=RULE, assumptions=[
         "replace-* and the experimental move: their candidates are taken from the real generators "
